@@ -38,7 +38,7 @@ theorem goodKeep : Good (fun a b => b.prog = a.prog ∧ Keep a b) Act.noCleanup 
   trans := fun a b c h1 h2 => ⟨h2.1.trans h1.1, Keep_trans a b c h1.2 h2.2⟩
   prog := fun _ _ h => h.1
   frame := fun s s' h => ⟨h.2.2.2.2.2.2.2.2.2.1, Keep_frame s s' h⟩
-  req := fun s c m _ => ⟨request_prog s c m, Keep_request s c m⟩
+  req := fun s c m _ _ => ⟨request_prog s c m, Keep_request s c m⟩
   erase := fun s k _ => ⟨rfl, Nat.le_refl _, rfl, fun _ => ⟨rfl, rfl⟩⟩
   nc := fun a h => noCleanup_nc _ (fun _ => trivial) a h
   clean := fun _ h => absurd h (by simp [Act.noCleanup])
@@ -202,8 +202,8 @@ theorem Keep_step_nontick (s : Rpc) (hs : Safe s) (op : Op) (h : op ≠ .tick) (
   have g := goodKeep
   cases op with
   | request c m =>
-    show Keep s (s.guard (s.request c m)).1
-    rcases guard_cases s (s.request c m) with e | e <;> rw [e]
+    show Keep s (s.guardReq (s.request c m)).1
+    rcases guardReq_cases s (s.request c m) with e | e <;> rw [e]
     · exact Keep_request s c m
     · exact Keep_refl s
   | notify m =>
@@ -313,7 +313,7 @@ theorem goodTStep : Good (fun a b => b.prog = a.prog ∧ TStep a b) (fun _ => Tr
   trans := fun a b c h1 h2 => ⟨h2.1.trans h1.1, TStep_trans a b c h1.2 h2.2⟩
   prog := fun _ _ h => h.1
   frame := fun s s' h => ⟨h.2.2.2.2.2.2.2.2.2.1, TStep_frame s s' h⟩
-  req := fun s c m _ => ⟨request_prog s c m, TStep_request s c m⟩
+  req := fun s c m _ _ => ⟨request_prog s c m, TStep_request s c m⟩
   erase := fun s k _ => ⟨rfl, rfl, fun h => Or.inl ⟨h, rfl⟩⟩
   nc := fun a _ => by cases a <;> simp [injectOk]
   clean := fun s _ _ => ⟨rfl, rfl, fun h => by cases h⟩
@@ -338,8 +338,8 @@ theorem TStep_step (s : Rpc) (op : Op) : TStep s (step s op).1 := by
   have hp := progAll_true s.prog
   cases op with
   | request c m =>
-    show TStep s (s.guard (s.request c m)).1
-    rcases guard_cases s (s.request c m) with e | e <;> rw [e]
+    show TStep s (s.guardReq (s.request c m)).1
+    rcases guardReq_cases s (s.request c m) with e | e <;> rw [e]
     · exact TStep_request s c m
     · exact TStep_refl s
   | notify m =>
